@@ -12,7 +12,7 @@ if "--props" in args:
 bad = 0
 for pf in sorted(glob.glob(os.path.join(HERE, "selftest", "harmless", "*.diff"))):
     name = os.path.basename(pf)
-    if args and not any(a in name for a in args):
+    if args and not any(a in name[len("refactor_"):] for a in args):
         continue
     tmp = tempfile.mkdtemp(prefix="harmless_")
     try:
